@@ -205,6 +205,17 @@ pub fn oods_binding(ctx: &mut Ctx) {
             if s == 2 {
                 continue;
             }
+            // dynamic layout: the constraints of a builtin the statement switches off
+            // (uses_<name>_builtin = 0) are multiplied by that flag, so its first address is not
+            // part of the constraint system at all (its segment is empty); nothing to bind.
+            if layout == "dynamic" {
+                const NAMES: [&str; 13] = ["", "", "", "pedersen", "range_check", "ecdsa", "bitwise", "ec_op", "keccak", "poseidon", "range_check96", "add_mod", "mul_mod"];
+                let used = NAMES.get(s).map(|n| pi_img["dynamic_params"][format!("uses_{n}_builtin")].as_u64() != Some(0)).unwrap_or(true);
+                if !used {
+                    ctx.stats.probe("dynamic-switched-off-builtin-not-in-the-air");
+                    continue;
+                }
+            }
             if let Some(f) = plus1(&format!("segments[{s}].begin_addr")) {
                 faults.push((format!("builtin-begin:{s}"), f));
             }
